@@ -21,7 +21,7 @@ ENTRY_HOW = ["garbage", "prefix", "empty", "gone_class", "null"]
 LAYOUT_HOW = [("models", "wrong_columns"), ("models", "drop"), ("metadata", "wrong_columns"), ("metadata", "drop"),
               ("metadata", "drop_keys"), ("extra", "extra_table"), ("models", "wrong_types"), ("models", "no_pk"),
               ("models", "extra_column"), ("metadata", "wrong_types")]
-FILE_HOW = ["garbage", "trunc0", "trunc100", "truncmid", "flip_header", "flip_page", "delete", "zero_fill"]
+FILE_HOW = ["garbage", "trunc0", "trunc100", "truncmid", "flip_header", "flip_page", "delete", "zero_fill", "index_swap"]
 GC_LAT = [0, 0, 1000, 100_000, 10_000_000, -1]
 
 
@@ -101,8 +101,18 @@ class Engine:
             else:
                 op = {"op": "corrupt_file", "how": rng.choice(FILE_HOW), "frac": rng.random()}
             ops.append(op)
+        # Known finding (index damaged after the process verified the file): half of the runs stay clear of it - the
+        # damage is followed by a process restart - so that the space beyond it keeps being explored.
+        avoid = rng.random() < 0.5
+        if avoid:
+            out = []
+            for op in ops:
+                out.append(op)
+                if op["op"] == "corrupt_file" and op["how"] == "index_swap":
+                    out.append({"op": "restart"})
+            ops = out
         return {"pool_seed": rng.randrange(1 << 30), "n_valid": n_valid, "n_broken": n_broken, "n_ws": n_ws,
-                "ops": ops, "gc_latency_us": rng.choice(GC_LAT)}
+                "ops": ops, "gc_latency_us": rng.choice(GC_LAT), "avoid": avoid}
 
     def shrink_candidates(self, plan):
         for cand in ddmin_list(plan["ops"]):
@@ -238,7 +248,10 @@ class Engine:
         last_corruption = ["none"]
         viol = None
 
+        index_swapped = [False]
+
         def restart(new_label=None):
+            index_swapped[0] = False
             shim.process_exit(0)
             nonlocal label, label_i
             if new_label is not None:
@@ -285,6 +298,8 @@ class Engine:
                     bump("fault:corrupt_file_" + op["how"] if done else "skipped:corrupt_file")
                     if done:
                         last_corruption[0] = "file_" + op["how"]
+                        # index damaged while the live process has already verified the file (see known_findings.json)
+                        index_swapped[0] = op["how"] == "index_swap" and proc_calls[0] > 0
                     log.add(clock.now_us, 0, "corrupt_file", "%s %s" % (op["how"], done))
                 elif kind == "parse":
                     ti = op["text"] % len(pool_texts)
@@ -325,6 +340,12 @@ class Engine:
                                     "None" if d is None else "a tree", "None" if ref is None else "a tree"))
                             else:
                                 outcome = ("wrong_result", "parser:parse", "tree differs from uncached parse under label %s" % label)
+                                others = [j for j, t2 in enumerate(pool_texts) if j != ti and self.reference(t2, label) == d]
+                                if index_swapped[0] and initialised and others:
+                                    shape = ["index_swapped_after_the_process_verified_the_file"]
+                                    outcome = (outcome[0], outcome[1], outcome[2] + "; it is the stored tree of text %d: the "
+                                               "primary-key index was damaged (row numbers of two entries exchanged) after "
+                                               "this process ran its integrity check" % others[0])
                     except core.SimCrash:
                         bump("fault:crash")
                         actor = sched.actors[0]
@@ -366,7 +387,7 @@ class Engine:
                         if k in rows_before and k in rows_after and rows_before[k][0] != rows_after[k][0]:
                             bump("probe:last_hit_refreshed")
                     if rows_after:
-                        for (h, v), (lh, blob) in sorted(rows_after.items()):
+                        for (h, v), (lh, blob) in sorted(rows_after.items(), key=lambda kv: repr(kv[0])):
                             i = hash_to_idx.get(h)
                             if i is None or v not in LABELS:
                                 continue
@@ -537,6 +558,41 @@ class Engine:
                 with open(dbpath, "r+b") as f:
                     f.seek(pos)
                     f.write(b)
+                return False
+        elif how == "index_swap":
+            # Page-level damage that leaves every page, cell and row well-formed: in the leaf page of the primary-key
+            # index of `models` the row numbers of two entries are exchanged (two bytes of the file), so the index no
+            # longer agrees with the table.  Only `PRAGMA integrity_check` notices ("row N missing from index").
+            try:
+                c = sqlshim.REAL_CONNECT(dbpath)
+                try:
+                    ps = c.execute("PRAGMA page_size").fetchone()[0]
+                    root = c.execute("SELECT rootpage FROM sqlite_master WHERE name='sqlite_autoindex_models_1'").fetchone()
+                    rows = c.execute("SELECT rowid, txt_hash, pymoca_version FROM models ORDER BY rowid").fetchall()
+                finally:
+                    c.close()
+                rows = [r for r in rows if 2 <= r[0] <= 127 and isinstance(r[1], str) and isinstance(r[2], str)]
+                if root is None or len(rows) < 2:
+                    return False
+                i = int(op.get("frac", 0.5) * len(rows)) % len(rows)
+                a, b = rows[i], rows[(i + 1) % len(rows)]
+                with open(dbpath, "rb") as f:
+                    raw = bytearray(f.read())
+                start = (root[0] - 1) * ps
+                page = bytes(raw[start:start + ps])
+                if not page or page[0] != 0x0A:
+                    return False
+                pos = []
+                for rid, h, v in (a, b):
+                    key = h.encode() + v.encode()
+                    k = page.find(key)
+                    if k < 0 or page.find(key, k + 1) >= 0 or raw[start + k + len(key)] != rid:
+                        return False
+                    pos.append(start + k + len(key))
+                raw[pos[0]], raw[pos[1]] = raw[pos[1]], raw[pos[0]]
+                with open(dbpath, "wb") as f:
+                    f.write(bytes(raw))
+            except Exception:
                 return False
         elif how == "delete":
             sqlshim.REAL_REMOVE(dbpath)
